@@ -190,24 +190,38 @@ def toAssoc (c : String) : Option C → List (String × C)
   | none => []
   | some a => [(c, a)]
 
-theorem calc_flat_aux (comb : String → Bool → Nat → Option C → C → C) (c : String) :
-    ∀ (ps : List (String × C)) (start : Nat) (acc0 : Option C),
-      ((flatKids c ps).zipIdx start).foldl (fun acc p =>
-          let e := extOf p.1.2
-          e.1.foldl (fun acc cv => upsert (fun cur => comb p.1.1 e.2 p.2 cur cv.2) cv.1 acc) acc)
+/-- members that each hold the single category `c`: `(case, row, use_ext)` -/
+def singleItems (c : String) (ps : List (String × C × Bool)) : List (String × List (String × C) × Bool) :=
+  ps.map fun p => (p.1, [(c, p.2.1)], p.2.2)
+
+theorem calc_single_aux (comb : String → Bool → Nat → Option C → C → C) (c : String) :
+    ∀ (ps : List (String × C × Bool)) (start : Nat) (acc0 : Option C),
+      ((singleItems c ps).zipIdx start).foldl (fun acc p =>
+          p.1.2.1.foldl (fun acc cv => upsert (fun cur => comb p.1.1 p.1.2.2 p.2 cur cv.2) cv.1 acc) acc)
         (toAssoc c acc0)
-      = toAssoc c ((ps.zipIdx start).foldl (fun cur p => some (comb p.1.1 false p.2 cur p.1.2)) acc0)
+      = toAssoc c ((ps.zipIdx start).foldl (fun cur p => some (comb p.1.1 p.1.2.2 p.2 cur p.1.2.1)) acc0)
   | [], _, _ => rfl
-  | (k, v) :: ps, start, acc0 => by
-    have ih := calc_flat_aux comb c ps (start + 1)
-    simp only [flatKids, List.map_cons, List.zipIdx_cons, List.foldl_cons] at ih ⊢
+  | (k, v, u) :: ps, start, acc0 => by
+    have ih := calc_single_aux comb c ps (start + 1)
+    simp only [singleItems, List.map_cons, List.zipIdx_cons, List.foldl_cons] at ih ⊢
     cases acc0 with
     | none =>
-      simp only [extOf, toAssoc, List.foldl_cons, List.foldl_nil, upsert]
-      exact ih (some (comb k false start none v))
+      simp only [toAssoc, List.foldl_nil, upsert]
+      exact ih (some (comb k u start none v))
     | some a =>
-      simp only [extOf, toAssoc, List.foldl_cons, List.foldl_nil, upsert, beq_self_eq_true, if_true]
-      exact ih (some (comb k false start (some a) v))
+      simp only [toAssoc, List.foldl_nil, upsert, beq_self_eq_true, if_true]
+      exact ih (some (comb k u start (some a) v))
+
+theorem calcCore_single (comb : String → Bool → Nat → Option C → C → C) (c : String)
+    (ps : List (String × C × Bool)) :
+    calcCore comb (singleItems c ps)
+      = toAssoc c ((ps.zipIdx 0).foldl (fun cur p => some (comb p.1.1 p.1.2.2 p.2 cur p.1.2.1)) none) := by
+  have := calc_single_aux comb c ps 0 none
+  simpa [calcCore, toAssoc, List.zipIdx] using this
+
+theorem extOf_flatKids (c : String) (ps : List (String × C)) :
+    (flatKids c ps).map (fun k => (k.1, extOf k.2)) = singleItems c (ps.map fun p => (p.1, p.2, false)) := by
+  simp [flatKids, singleItems, extOf, List.map_map, Function.comp_def]
 
 theorem addKids_flat (comb : String → Bool → Nat → Option C → C → C) (c : String)
     (ps : List (String × C)) : addKids comb (flatKids c ps) = flatKids c ps := by
@@ -241,5 +255,71 @@ theorem foldl_zipIdx_ignore {A B : Type} (f : B → A → B) :
   | a :: l, start, b => by
     simp only [List.zipIdx_cons, List.foldl_cons]
     exact foldl_zipIdx_ignore f l (start + 1) (f b a)
+
+/-! ### the nested envelope, recursively -/
+
+theorem lookup_append_of_noExtreme (ks : List (String × Res C)) (v : Res C)
+    (h : ∀ k ∈ ks, (k.1 == "extreme") = false) : lookup "extreme" (ks ++ [("extreme", v)]) = some v := by
+  induction ks with
+  | nil => simp [lookup]
+  | cons k ks ih =>
+    obtain ⟨kn, kv⟩ := k
+    have hk : (kn == "extreme") = false := h (kn, kv) (List.mem_cons_self ..)
+    simp only [List.cons_append, lookup, hk]
+    exact ih fun q hq => h q (List.mem_cons_of_mem _ hq)
+
+theorem addKids_keys (comb : String → Bool → Nat → Option C → C → C) (ks : List (String × Res C)) :
+    (addKids comb ks).map (·.1) = ks.map (·.1) := by
+  induction ks with
+  | nil => rfl
+  | cons k ks ih =>
+    obtain ⟨kn, kv⟩ := k
+    simp [addKids, ih]
+
+theorem keys_of_noExtremeKids (ks : List (String × Res C)) (h : noExtremeKids ks = true) :
+    ∀ k ∈ ks.map (·.1), (k == "extreme") = false := by
+  induction ks with
+  | nil => simp
+  | cons k ks ih =>
+    obtain ⟨kn, kv⟩ := k
+    simp only [noExtremeKids, Bool.and_eq_true] at h
+    intro q hq
+    simp only [List.map_cons, List.mem_cons] at hq
+    rcases hq with rfl | hq
+    · simpa using h.1.1
+    · exact ih h.2 q hq
+
+theorem extOf_mkBase_extreme (ks : List (String × Res C)) (x : List (String × C))
+    (h : ∀ k ∈ ks, (k.1 == "extreme") = false) :
+    extOf (Res.group (ks ++ [("extreme", mkBase x)])) = (x, true) := by
+  simp only [extOf, lookup_append_of_noExtreme ks _ h]
+  cases x with
+  | nil => simp [mkBase]
+  | cons a x => simp [mkBase]
+
+mutual
+/-- what a parent reads from a structure once `_add_extreme` has returned from it is its recursive
+envelope -/
+theorem extOf_add (comb : String → Bool → Nat → Option C → C → C) :
+    ∀ t : Res C, noExtreme t = true → extOf (add comb t) = envOf comb t
+  | .base cats, _ => by simp [add, extOf, envOf]
+  | .group kids, hn => by
+    simp only [noExtreme] at hn
+    simp only [add, envOf]
+    have hk : ∀ k ∈ addKids comb kids, (k.1 == "extreme") = false := by
+      intro k hkm
+      have := keys_of_noExtremeKids kids hn k.1
+      rw [← addKids_keys comb kids] at this
+      exact this (List.mem_map_of_mem hkm)
+    rw [extOf_mkBase_extreme _ _ hk, calcExtreme, map_extOf_addKids comb kids hn]
+theorem map_extOf_addKids (comb : String → Bool → Nat → Option C → C → C) :
+    ∀ ks : List (String × Res C), noExtremeKids ks = true →
+      (addKids comb ks).map (fun k => (k.1, extOf k.2)) = envKids comb ks
+  | [], _ => rfl
+  | (k, v) :: rest, hn => by
+    simp only [noExtremeKids, Bool.and_eq_true] at hn
+    simp only [addKids, List.map_cons, envKids]
+    rw [extOf_add comb v hn.1.2, map_extOf_addKids comb rest hn.2]
+end
 
 end PyYetiVerif.ExtremaTree
